@@ -138,6 +138,14 @@ def run_history(ast, packages, ops):
         history_outcomes = []
         d9_reported = False
         shared_loader = [None]
+        # a long-lived extended loader that carries one consumable option
+        fixed_opt = None
+        for it in ast["items"]:
+            if it["kind"] in ("key", "multikey") and it["name"] != "+" and (it.get("datatype") or "string") in gen.GOOD \
+                    and refload.refdt.basic_key(it["name"])[0] == "ok":
+                fixed_opt = "%s=%s" % (it["name"], gen.GOOD[it.get("datatype") or "string"][0])
+                break
+        ext_loader = [None]
         for k, op in enumerate(ops):
             if op["op"] == "mutate":
                 for r in results:
@@ -167,6 +175,18 @@ def run_history(ast, packages, ops):
                         import ZConfig.loader
                         shared_loader[0] = ZConfig.loader.ConfigLoader(aged)
                     seq = [shared_loader[0]]
+                if fixed_opt is not None and not ov:
+                    from ZConfig import cmdline
+                    if ext_loader[0] is None:
+                        ext_loader[0] = cmdline.ExtendedConfigLoader(aged)
+                        ext_loader[0].addOption(fixed_opt)
+                    fl_ = cmdline.ExtendedConfigLoader(fresh)
+                    fl_.addOption(fixed_opt)
+                    r1 = outcome(loadcheck.real_load_with(ext_loader[0], op["text"], MAIN))
+                    r2 = outcome(loadcheck.real_load_with(fl_, op["text"], MAIN))
+                    if r1[0] != r2[0] or (r1[0] == "ok" and digest.first_diff(r2[1], r1[1])):
+                        out.append(("reused-extended-loader-differs-from-fresh:%s-vs-%s" % (r1[0], r2[0]),
+                                    "step %d, option %r, %r" % (k, fixed_opt, op.get("text", "")[:200])))
                 for ld in seq:
                     r = outcome(loadcheck.real_load_with(ld, op["text"], MAIN))
                     if r[0] != f[0] or (r[0] == "ok" and digest.first_diff(f[1], r[1])):
